@@ -287,7 +287,8 @@ def run_check(prop_id:str, tier:str) -> int:
         print(f'HARNESS-ERROR property={prop_id}: cannot import check module')
         return 2
     rundir = Path(tempfile.mkdtemp(prefix=f'vf-{prop_id}-'))
-    evidence_path = VERIF/'evidence'/f'{prop_id}.json'
+    evidence_path = VERIF/'evidence'/(f'{prop_id}.json' if not os.environ.get('VERIF_REPO')
+        else f'{prop_id}.scratch.json')
     evidence_path.parent.mkdir(exist_ok=True)
     try:
         if hasattr(mod, 'setup'):
